@@ -6,5 +6,6 @@ INVARIANT Valid
 INVARIANT ExpectRefines
 INVARIANT ProjTraceRefines
 INVARIANT PostselectRefines
+INVARIANT EntropyRefines
 PROPERTY RefMeasure
 PROPERTY RefRotate
